@@ -4,12 +4,13 @@ import Proofs.Gen17
 
 /-
   The tie by translation for C17: the typed accessors of object/object.go (GetAny, GetString,
-  GetObject, GetList, GetTime, GetURL, GetMediaType and the instantiations of getPrimitive they
+  GetNumber, GetObject, GetList, GetTime, GetURL, GetMediaType and the instantiations of getPrimitive they
   use) are translated from the source on every run (`Generated/GoObject.lean`, namespace
   `GenObject`); the theorems below say the generated code computes what the hand-written model
   (`Model/Json.lean`, namespace `Obj`) computes, so the C17 classification theorems hold of the
-  code as translated.  (`GetNumber` and `GetMarkup` are outside the translated subset: floating
-  point and renderer construction; they stay tied by the differential correspondence.)
+  code as translated.  `GetNumber` is at the end of the file (floating point, bit-exactly);
+  `GetMarkup` is outside the translated subset (renderer construction) and stays tied by the
+  differential correspondence.
 -/
 
 namespace Gen17
@@ -76,5 +77,33 @@ theorem getMediaType_eq (L : Obj.Libs Time Url) (o : List (Str × JVal)) (k : St
   | ok s =>
     dsimp only
     cases Mime.parse s <;> rfl
+
+end Gen17
+
+/-! ### `GetNumber`: floating point, bit-exactly
+
+  The translated `GetNumber` works on the bit pattern of the double with the Go operations as
+  `Model/GoJson.lean` defines them (`math.Trunc`, `!=`, comparison with an exactly representable
+  integer literal, conversion to `uint64`); the model (`Obj.getNumber`) works on the exact value
+  (`F64.toNat?`).  They agree on every bit pattern — NaNs, infinities, signed zeros, subnormals,
+  fractions and values of 2^64 and beyond included. -/
+
+namespace Gen17
+
+variable {Time Url : Type}
+
+theorem getNumber_eq (L : Obj.Libs Time Url) (o : List (Str × JVal)) (k : Str)
+    (hbits : ∀ bits, Obj.lookup o k = some (.num bits) → bits < 2 ^ 64) :
+    GenObject.GetNumber L o k = Obj.getNumber o k := by
+  unfold GenObject.GetNumber Obj.getNumber
+  rw [getPrimitive_float64_eq]
+  cases h : Obj.lookup o k with
+  | none => simp [Obj.getAny, h]
+  | some v =>
+    cases v with
+    | num bits =>
+      simp only [Obj.getAny, h]
+      exact numCore bits (hbits bits h)
+    | _ => simp [Obj.getAny, h]
 
 end Gen17
